@@ -201,14 +201,23 @@ PROPS = {
                     "checksum is xxh3 of the model's stream; what one glob pattern matches (mvdan/sh expansion) is an oracle",
                     "the harness's copy of the goodRun monitor is tied to the Lean definition by comparing its verdict (g=) on every step"],
         "assumptions": ["status: commands are `test -f`, commands only write their declared files and append to a trace; no deps, "
-                        "no preconditions, no sub-task calls; sources readable; explicit whole-second mtimes; every sources pattern matches "
+                        "no preconditions; sub-task calls only in the form `task: helper` where the helper has one `test -f` precondition and one command "
+                        "(a call that fails before anything runs, also under --dry); sources readable; explicit whole-second mtimes; every sources pattern matches "
                         "below the task directory (no `..`), so the name hashed with a file (its path relative to t.Dir) is its root-relative "
                         "path without the `dir/` prefix"],
-        "level_text": "Theorems over TaskModel.Finger.invoke (mirror of RunTask / IsTaskUpToDate / Checksum- and TimestampChecker): C04_partial "
-                      "(method checksum, pairwise distinct normalised names, histories of any length made of successful runs, runs failing in the "
-                      "command loop, runs cancelled at the prompt, --dry, --status, --force, list/summary queries and arbitrary file edits: skip "
-                      "implies goodRun), C04_prompt_declined_no_entry / _next_runs (a declined prompt leaves no checksum entry, the next run is "
-                      "not skipped) and decide-checked counterexamples to C04_full (kill, method timestamp, name collision). Tie: Gen.DryWiring / Gen.FingerOrder tables proved equal to the skeleton the "
+        "level_text": "Theorems over TaskModel.Finger.invoke (mirror of RunTask / IsTaskUpToDate / Checksum- and TimestampChecker, the latter as "
+                      "patched by TS1-TS3): C04_partial (method checksum, pairwise distinct normalised names, histories of any length made of "
+                      "successful runs, runs failing in the command loop, runs cancelled at the prompt, --dry, --status, --force, list/summary "
+                      "queries and arbitrary file edits: skip implies goodRun), C04_partial_timestamp (the same histories for a method-timestamp "
+                      "task without positive generates pattern, distinct marker names, non-decreasing clock), C04_prompt_declined_no_entry / "
+                      "_next_runs and C04_timestamp_declined_no_marker / _failed_no_marker / _no_marker_next_runs (a declined prompt or a failed "
+                      "run leaves no checksum entry / no marker; the next run is not skipped unless a generates file vouches), "
+                      "C04_timestamp_uptodate_check_pure / _checks_pure / _edit_after_checks_detected (a check ending in 'up to date' leaves the "
+                      "marker alone, so a source written after the last run is rebuilt however many checks lay in between), "
+                      "C04_timestamp_skip_generates_exist, and decide-checked counterexamples to C04_full over the patched model (kill for both "
+                      "methods, name collision, method timestamp: never ran / failed run / marker created by an up-to-date check / generates "
+                      "rewritten by others - one root: a generates file as new as the sources vouches on its own). Tie: Gen.DryWiring / "
+                      "Gen.FingerOrder tables (incl. the definitions of the timestamp verdict variables) proved equal to the skeleton the "
                       "model was written against; random histories through the real CLI binary compared step by step (exit class, commands run, "
                       "tree incl. .task) with the model; the property monitor skip⇒goodRun evaluated on the real observations.",
         "level_note": "Trusted: Lean kernel; harness canonicalisation (mtimes rebased to a logical clock); hash uninterpreted; glob expansion is an oracle.",
@@ -219,12 +228,15 @@ PROPS = {
         "cli": True,
         "trusted": ["mvdan/sh glob semantics is an oracle (per-pattern match sets come from the real expander run on that pattern alone)",
                     "hash uninterpreted; fingerprint inequality needs the explicit hypothesis HashInj on the two streams involved"],
-        "assumptions": ["as C04; timestamp idempotence under the side condition 'no source newer than the last run'"],
+        "assumptions": ["as C04; timestamp idempotence under the side conditions 'no source newer than the last run', 'the generates exist' and "
+                        "(since TS2 touches the marker only when the timestamp check itself asks for the run) 'the status commands did not fail "
+                        "before that run'"],
         "level_text": "Theorems: C05_globs (for every pattern list and file set: p ∈ Globs ⇔ the last pattern matching p is positive; result strictly "
-                      "sorted), C05_idem (both methods), C05_force, C05_missing_generates, C05_status_fails, C05_detect_checksum (edit/add/remove/"
+                      "sorted), C05_idem (both methods), C05_force, C05_missing_generates (both methods since TS1), C05_status_fails, C05_detect_checksum (edit/add/remove/"
                       "rename-in-place change the stream), C05_detect_move / C05_detect_move_op (the hashed name is the path relative to the task dir, "
                       "injective on matched paths: a move or rename to another path changes the stream), C05_mtime, and "
-                      "C05_counterexample_undelimited (name and content hashed without delimiter) with C05_detect_partial. Tie: "
+                      "C05_counterexample_undelimited (name and content hashed without delimiter) with C05_detect_partial, "
+                      "C05_idem_timestamp_status_counterexample (timestamp idempotence without the status side condition). Tie: "
                       "fingerprint.Globs run in-process on random trees and glob/exclude lists; CLI histories with file operations between runs.",
         "level_note": "Trusted: Lean kernel; harness; glob expansion oracle; hash uninterpreted (HashInj explicit).",
     },
@@ -235,8 +247,12 @@ PROPS = {
         "trusted": ["status:/sh: commands are assumed side-effect free (they do run in query modes by design)"],
         "assumptions": ["as C04; remote includes (cache writes) are outside the model"],
         "level_text": "Theorems: C12_full (every read-only invocation --dry/--status/--list[-all] [--json]/--summary leaves the state unchanged and runs "
-                      "no command) and C12_continuation (H;R;K ≈ H;K for all histories) for the model with the dry wiring proved equal to the "
-                      "extracted Gen.DryWiring table; counterexamples for the wiring as found (F7, F11). Tie: snapshot of the tree before/after every "
+                      "no command - histories may contain `task:` calls whose precondition fails, the one thing that fails under --dry), "
+                      "C12_marker_untouched / C12_dry_body_no_onError / C12_dry_failing_call (a failing call under --dry exits `failed` and changes "
+                      "nothing: checker.OnError sits under !(e.Dry), onError_unreachable_when_dry, TS4; C12_dry_onError_counterexample for the "
+                      "rule before the fix) and C12_continuation "
+                      "(H;R;K ≈ H;K for all histories) for the model with the dry wiring proved equal to the "
+                      "extracted Gen.DryWiring table; counterexamples for the wiring as found (F7, F11, TS4). Tie: snapshot of the tree before/after every "
                       "read-only CLI invocation in random histories, and the same history re-run without its read-only steps.",
         "level_note": "Trusted: Lean kernel; harness snapshot (names, contents, logical mtimes; directories' own mtimes ignored).",
     },
@@ -483,6 +499,17 @@ def _same_key(m, f):
     return _norm(a.get("label") or a["name"]) == _norm(b.get("label") or b["name"])
 
 
+def _gen_vouches(f):
+    """method timestamp: before the check an existing generates file was at least as new as every source (vouch=gen), or the
+    marker that vouched had been CREATED by an invocation that itself reported "up to date" (wskip=1)"""
+    return f.get("vouch") == "gen" or (f.get("vouch") == "marker" and f.get("wskip") == "1")
+
+
+def _marker_vouches(f):
+    """method timestamp: only the marker vouched, and it was last written by an invocation that did not report 'up to date'"""
+    return f.get("vouch") == "marker" and f.get("wskip") == "0"
+
+
 def _c04(cond):
     def p(m):
         f = _mon(m, "c04")
@@ -499,28 +526,45 @@ def _c05(cond):
 
 FINDING_PREDICATES.update({
     # the step that last wrote the stored fingerprint was a run of the same task cancelled at the prompt
-    # (method checksum: FIXED by F31, the entry is kept so that a regression is named; method timestamp: open)
+    # (method checksum: FIXED by F31, the entry is kept so that a regression is named)
     "C04-prompt-declined-after-fingerprint": _c04(lambda m, f: f.get("method") == "checksum" and f.get("wexit") == "cancelled" and
                                                   f.get("wmode") == "run" and f.get("wtask") == f["task"]),
+    # (method timestamp: FIXED by TS3 — a marker left by a cancelled run vouches; the run removes its marker now)
     "C04-timestamp-prompt-declined": _c04(lambda m, f: f.get("method") == "timestamp" and f.get("wexit") == "cancelled" and
-                                          f.get("wmode") == "run" and f.get("wtask") == f["task"]),
+                                          f.get("wmode") == "run" and f.get("wtask") == f["task"] and _marker_vouches(f)),
     # … or was killed / the most recent attempt at this fingerprint was killed
     "C04-killed-before-last-command": _c04(lambda m, f: (f.get("wexit") == "killed" and f.get("wtask") == f["task"]) or f.get("laexit") == "killed"),
-    # method timestamp and the run that last touched the marker (or the last attempt) failed
-    "C04-timestamp-failed-run": _c04(lambda m, f: f.get("method") == "timestamp" and
+    # method timestamp, the marker left by a failed run (or by whoever, while the last attempt failed) vouches
+    # (FIXED by TS3: a failed run removes the marker; kept so that a regression is named)
+    "C04-timestamp-failed-run": _c04(lambda m, f: f.get("method") == "timestamp" and _marker_vouches(f) and
                                      ((f.get("wexit") == "failed" and f.get("wtask") == f["task"]) or f.get("laexit") == "failed")),
+    # … what is left of it: the last attempt failed, its marker is gone, but a generates file as new as the sources vouches on its
+    # own (vouch=gen) — or the marker that such a skipped check then created does (wskip=1)
+    "C04-timestamp-failed-run-generates-newer": _c04(lambda m, f: f.get("method") == "timestamp" and f.get("laexit") == "failed" and
+                                                     _gen_vouches(f)),
     # the stored fingerprint was written by a different task with the same normalised name
     "C04-normalised-name-collision": _c04(_same_key),
-    # method timestamp, last run fine, but a generates pattern matches nothing
+    # method timestamp, last run fine, but a generates pattern matches nothing (FIXED by TS1)
     "C04-timestamp-missing-generates": _c04(lambda m, f: f.get("method") == "timestamp" and f.get("gens") == "0" and f.get("laexit") == "ok"),
-    # method timestamp, never attempted and no marker before: decided by the generates' mtimes alone
-    "C04-timestamp-never-ran": _c04(lambda m, f: f.get("method") == "timestamp" and f.get("lastatt") == "-" and f.get("writer") == "-"),
-    # method timestamp, last attempt fine, generates there, but a source is newer than that attempt (and not
-    # newer than the marker, which every check — also a skipped one — moves to the time of the check)
+    # method timestamp, the commands never ran: the generates' mtimes alone decided (no marker), or the marker a check created
+    # when it said "up to date" for that reason
+    "C04-timestamp-never-ran": _c04(lambda m, f: f.get("method") == "timestamp" and f.get("lastatt") == "-" and _gen_vouches(f)),
+    # method timestamp, last attempt fine, generates there, but a source is newer than that attempt and not newer than the
+    # marker, which a check that ended in "up to date" had MOVED there (FIXED by TS2; kept so that a regression is named) …
     "C04-timestamp-marker-moved-by-every-check": _c04(lambda m, f: f.get("method") == "timestamp" and f.get("gens") == "1" and
-                                                      f.get("laexit") == "ok" and f.get("srcnewer") == "1"),
+                                                      f.get("laexit") == "ok" and f.get("srcnewer") == "1" and _marker_vouches(f)),
+    # … or had CREATED there, there being none (still open)
+    "C04-timestamp-marker-created-by-uptodate-check": _c04(lambda m, f: f.get("method") == "timestamp" and f.get("laexit") == "ok" and
+                                                           f.get("srcnewer") == "1" and f.get("vouch") == "marker" and f.get("wskip") == "1"),
+    # method timestamp, last attempt fine, a source is newer than it, and a generates file is newer still
+    "C04-timestamp-generates-newer-after-edit": _c04(lambda m, f: f.get("method") == "timestamp" and f.get("laexit") == "ok" and
+                                                     f.get("srcnewer") == "1" and f.get("vouch") == "gen"),
     # same multiset of (base name, content), different paths (FIXED by F8; kept so that a regression is named)
+    # a read-only --dry invocation that exits `failed` (a task: call failed) changed the tree (FIXED by TS4)
+    "C12-dry-failed-call-removes-fingerprint": lambda m: (lambda f: bool(f) and f.get("kind") == "tree-changed" and f.get("mode") == "dry" and
+                                                          f.get("exit") == "failed")(_mon(m, "c12")),
     "C05-dir-move-not-detected": _c05(lambda m, f: f.get("kind") == "change-not-detected" and f.get("samebases") == "1" and f.get("method") == "checksum"),
+    # (FIXED by TS1)
     "C05-timestamp-missing-generates": _c05(lambda m, f: f.get("kind") == "missing-generates-skipped" and f.get("method") == "timestamp"),
 })
 
